@@ -57,10 +57,13 @@ type coreScript struct {
 	Groups     [][][]int     `json:"groups"`    // group table: members as [key, value]
 	CtxVals    [][][]int     `json:"ctx_vals"`  // context contents: [context key, value]
 	CallArgs   [][][]int     `json:"call_args"` // call-site attribute lists: [key, value]
+	FlagSets   [][]string    `json:"flag_sets"` // flag sets (names) used by the flag calls
 	Behaviours [][]coreEvent `json:"behaviours"`
 }
 
 type coreRun struct {
+	restoreF []func() // restore functions returned by SaveFlagsAndMod, in order
+	restoreL []func() // restore functions returned by SaveLevelAndSet
 	sc      *coreScript
 	loggers []*slog.Entry // index 0 unused
 	ids     map[*slog.Entry]int
@@ -120,6 +123,7 @@ func (r *coreRun) reset() {
 	d := defaultEntry()
 	r.loggers = []*slog.Entry{nil, d}
 	r.ids = map[*slog.Entry]int{d: 1}
+	r.restoreF, r.restoreL = nil, nil
 	sink.reset()
 }
 
@@ -327,6 +331,21 @@ func (r *coreRun) exec(ev coreEvent) (rec map[string]any) {
 		slog.SetLevel(slog.Level(ev.A))
 	case "SetDefault":
 		slog.SetDefault(l)
+	case "Flags":
+		r.flagsOp(ev)
+	case "PkgLevel":
+		switch ev.K {
+		case "ResetLevel":
+			slog.ResetLevel()
+		case "Reset":
+			slog.Reset()
+		case "SaveLevelAndSet":
+			r.restoreL = append(r.restoreL, slog.SaveLevelAndSet(slog.Level(ev.A)))
+		case "RestoreLevel":
+			r.restoreL[ev.A-1]()
+		default:
+			panic("unknown PkgLevel kind " + ev.K)
+		}
 	case "LogF":
 		r.logF(l, ev, rec)
 	case "LogA":
@@ -346,6 +365,15 @@ func (r *coreRun) exec(ev coreEvent) (rec map[string]any) {
 	rec["dbg"] = is.DebugMode()
 	rec["deflvl"] = int(slog.GetLevel())
 	rec["attrsR"] = slog.IsAnyBitsSet(slog.LattrsR)
+	if len(r.sc.FlagSets) > 0 {
+		rec["flags"] = flagNames(slog.GetFlags())
+		bits := []map[string]any{}
+		for i := range r.sc.FlagSets {
+			m := r.flagMask(i + 1)
+			bits = append(bits, map[string]any{"fs": i + 1, "any": slog.IsAnyBitsSet(m), "all": slog.IsAllBitsSet(m)})
+		}
+		rec["bits"] = bits
+	}
 	r.observe(rec)
 	return rec
 }
@@ -513,4 +541,76 @@ func (r *coreRun) logF(l *slog.Entry, ev coreEvent, rec map[string]any) {
 	}
 	rec["evs"] = evs
 	rec["outcome"] = outcome
+}
+
+var coreFlagBits = []struct {
+	name string
+	bit  slog.Flags
+}{
+	{"date", slog.Ldate}, {"time", slog.Ltime}, {"micro", slog.Lmicroseconds}, {"localTime", slog.LlocalTime},
+	{"attrs", slog.Lattrs}, {"attrsR", slog.LattrsR}, {"lineno", slog.Llineno}, {"caller", slog.Lcaller},
+	{"callerpkg", slog.Lcallerpackagename}, {"privacypath", slog.Lprivacypath}, {"privacyrx", slog.Lprivacypathregexp},
+	{"smartjson", slog.LsmartJSONMode}, {"noInterrupt", slog.LnoInterrupt}, {"interruptAlways", slog.Linterruptalways},
+}
+
+func flagNames(f slog.Flags) []string {
+	res := []string{}
+	for _, fb := range coreFlagBits {
+		if f&fb.bit != 0 {
+			res = append(res, fb.name)
+			f &^= fb.bit
+		}
+	}
+	if f != 0 {
+		res = append(res, fmt.Sprintf("unknown:%#x", int64(f)))
+	}
+	return res
+}
+
+func (r *coreRun) flagMask(idx int) (m slog.Flags) {
+	for _, n := range r.sc.FlagSets[idx-1] {
+		for _, fb := range coreFlagBits {
+			if fb.name == n {
+				m |= fb.bit
+			}
+		}
+	}
+	return
+}
+
+// single-flag arguments of a mask, the way AddFlags(a, b, c) / RemoveFlags(a, b, c) can be called
+func splitFlags(m slog.Flags) (res []slog.Flags) {
+	for _, fb := range coreFlagBits {
+		if m&fb.bit != 0 {
+			res = append(res, fb.bit)
+		}
+	}
+	return
+}
+
+func (r *coreRun) flagsOp(ev coreEvent) {
+	switch ev.K {
+	case "SetFlags":
+		slog.SetFlags(r.flagMask(ev.A))
+	case "AddFlags":
+		if ev.A%2 == 0 {
+			slog.AddFlags(r.flagMask(ev.A)) // one combined mask ...
+		} else {
+			slog.AddFlags(splitFlags(r.flagMask(ev.A))...) // ... or one argument per flag
+		}
+	case "RemoveFlags":
+		if ev.A%2 == 0 {
+			slog.RemoveFlags(r.flagMask(ev.A))
+		} else {
+			slog.RemoveFlags(splitFlags(r.flagMask(ev.A))...)
+		}
+	case "ResetFlags":
+		slog.ResetFlags()
+	case "SaveFlagsAndMod":
+		r.restoreF = append(r.restoreF, slog.SaveFlagsAndMod(r.flagMask(ev.A), splitFlags(r.flagMask(ev.B))...))
+	case "RestoreFlags":
+		r.restoreF[ev.A-1]()
+	default:
+		panic("unknown Flags kind " + ev.K)
+	}
 }
